@@ -10,7 +10,7 @@ Lemma full_guard_wf_coarse r n : full_guard r n -> spec_wf r = true /\ r_freq r 
 Proof.
   unfold YEARLY, MONTHLY, WEEKLY, DAILY.
   intros [(HW & _ & _ & Hf)|(HW & _ & Hf)]; (split; [exact HW|]).
-  - destruct Hf as [Hf|[Hf|[(Hf & _)|Hf]]]; rewrite Hf; unfold YEARLY, MONTHLY, WEEKLY, DAILY; lia.
+  - destruct Hf as [Hf|[Hf|[Hf|Hf]]]; rewrite Hf; unfold YEARLY, MONTHLY, WEEKLY, DAILY; lia.
   - destruct Hf as [(Hf & _)|[(Hf & _)|[(Hf & _)|(Hf & _)]]]; rewrite Hf; unfold YEARLY, MONTHLY, WEEKLY, DAILY; lia.
 Qed.
 
